@@ -124,6 +124,58 @@ pub fn decode_weight(wmode: u8, r: u8) -> f64 {
     }
 }
 
+/// A long chain 0 - 1 - ... - (n-1) whose weights follow a slowly varying law of the position
+/// (`law`): 0: ln(i+2), 1: 1 + ln ln(i+3), 2: sqrt(i+1), 3: (i+1)^0.1, 4: i+1, 5: ln(n-i+1)
+/// (decreasing). Local-move heuristics make progress along such a chain one node at a time.
+pub fn chain_structured(n: usize, directed: bool, law: u64) -> NormGraph {
+    let w = |i: usize| -> f64 {
+        let x = i as f64;
+        match law % 6 {
+            0 => (x + 2.0).ln(),
+            1 => 1.0 + (x + 3.0).ln().ln(),
+            2 => (x + 1.0).sqrt(),
+            3 => (x + 1.0).powf(0.1),
+            4 => x + 1.0,
+            _ => ((n - i) as f64 + 1.0).ln(),
+        }
+    };
+    NormGraph {
+        directed,
+        multi: false,
+        loops: false,
+        n,
+        names: (0..n).map(|i| format!("c{:04}", (i * 389 + 7) % 5003)).collect(),
+        order: (0..n).collect(),
+        edges: (1..n).map(|i| (i - 1, i, w(i - 1))).collect(),
+        weighted: true,
+    }
+}
+
+/// A complete graph on up to 1000 nodes whose weights follow a law of the positions (`family`):
+/// 0: (i-j)^2 (every node is strictly improved by each of its predecessors in turn: n - 1
+/// decrease-key operations on the last node), 1: 1 + |i-j|^2 / 4, 2: sqrt-like concave 8 + |i-j|
+/// (the direct edge always wins), 3: (i-j)^2 from the far end (improvements in descending order).
+/// All values are dyadic and the sums exact.
+pub fn dense_structured(n: usize, directed: bool, family: u64) -> NormGraph {
+    let mut edges = Vec::with_capacity(n * n);
+    for i in 0..n {
+        for j in 0..n {
+            if i == j || (!directed && j < i) {
+                continue;
+            }
+            let d = (i as f64 - j as f64).abs();
+            let w = match family % 4 {
+                0 => d * d,
+                1 => 1.0 + d * d / 4.0,
+                2 => 8.0 + d,
+                _ => ((n - 1 - i.min(j)) as f64 + 1.0) * d * d / 4.0,
+            };
+            edges.push((i, j, w));
+        }
+    }
+    NormGraph { directed, multi: false, loops: false, n, names: (0..n).map(|i| format!("r{:04}", (i * 389 + 7) % 1009)).collect(), order: (0..n).collect(), edges, weighted: true }
+}
+
 /// structured edges mixed into a case
 pub fn shape_edges(shape: u8, n: usize) -> Vec<(usize, usize)> {
     let mut e = vec![];
@@ -235,12 +287,26 @@ pub fn shape_edges(shape: u8, n: usize) -> Vec<(usize, usize)> {
                 }
             }
         }
+        12 => {
+            // two disjoint complete blocks of equal size (the second takes the odd node): a
+            // disconnected graph in which every node has as many neighbours as a connected graph
+            // of that size could give it
+            let h = n / 2;
+            for (lo, hi) in [(0, h), (h, n)] {
+                for a in lo..hi {
+                    for b in (a + 1)..hi {
+                        e.push((a, b));
+                        e.push((b, a));
+                    }
+                }
+            }
+        }
         _ => {}
     }
     e
 }
 
-pub const N_SHAPES: u8 = 12;
+pub const N_SHAPES: u8 = 13;
 
 fn permutation(seed: u32, n: usize) -> Vec<usize> {
     let mut v: Vec<usize> = (0..n).collect();
@@ -262,11 +328,23 @@ impl GraphCase {
     }
 
     pub fn norm(&self) -> NormGraph {
+        if self.big_n > 0 && self.shape == 1 {
+            return chain_structured(self.big_n.min(5000) as usize, self.kind & 1 == 1, self.big_seed);
+        }
+        if self.big_n > 0 && self.shape == 4 {
+            return dense_structured(self.big_n.min(1000) as usize, self.kind & 1 == 1, self.big_seed);
+        }
         if self.big_n > 0 {
             let mut ng = crate::oracle::procedural_graph(self.big_n as usize, self.big_seed, self.kind & 1 == 1, self.wmode != 0);
             // keep the kind's flags (the generated edges never need them)
             ng.multi = self.kind & 2 == 2;
             ng.loops = self.kind & 4 == 4;
+            if ng.loops && ng.n > 4 {
+                // self-loops on the first hub and on an ordinary node
+                let w = if ng.weighted { 0.75 } else { f64::NAN };
+                ng.edges.push((0, 0, w));
+                ng.edges.push((ng.n / 2, ng.n / 2, w));
+            }
             if self.wmode != 0 {
                 // weights in the case's own weight mode
                 for (k, e) in ng.edges.iter_mut().enumerate() {
@@ -297,6 +375,18 @@ impl GraphCase {
             }
             for (i, j, r) in &self.edges {
                 push(*i as usize % n, *j as usize % n, decode_weight(self.wmode, *r), &mut edges);
+            }
+            // reflexive graphs (a similarity matrix with a unit diagonal): one case in four of the
+            // kinds that allow self-loops puts a loop on every node
+            if s.loops && (self.perm / 32) % 4 == 3 {
+                for i in 0..n {
+                    push(i, i, decode_weight(self.wmode, 3), &mut edges);
+                }
+            }
+            // ... and another one in four a loop on the first node only (the centre of the star,
+            // path end, clique member, ... of the structured shapes)
+            if s.loops && (self.perm / 32) % 4 == 2 {
+                push(0, 0, decode_weight(self.wmode, 6), &mut edges);
             }
         }
         NormGraph {
@@ -489,10 +579,10 @@ pub fn big_graph_strategy(kinds: &'static [u8], lo: u32, hi: u32, wmodes: &'stat
 
 /// For properties that enumerate *all* shortest paths: replaces the shapes whose number of
 /// shortest paths grows exponentially or polynomially with the size (layered, complete, joined
-/// cliques, 3-column grid, circulant) by a cycle once the graph has more than `max_n` nodes. (The API returns every shortest
+/// cliques, disjoint cliques, 3-column grid, circulant) by a cycle once the graph has more than `max_n` nodes. (The API returns every shortest
 /// path, so such inputs need memory exponential in n; that is not a defect.)
 pub fn tame_path_counts(mut g: GraphCase, max_n: u8) -> GraphCase {
-    if g.n > max_n && matches!(g.shape, 4 | 5 | 6 | 9 | 10) {
+    if g.n > max_n && matches!(g.shape, 4 | 5 | 6 | 9 | 10 | 12) {
         g.shape = 2;
     }
     g
